@@ -124,6 +124,9 @@ func inlineExpressionFuncs(prog *ir.Program, n *ir.Normalizer) {
 		if fn.Decl == nil || fn.Decl.Recv != nil || fn.Decl.Body == nil || len(fn.Decl.Body.List) != 1 || reachesItself(prog, fn) {
 			continue
 		}
+		if len(fn.Params) == 0 {
+			continue // a constructor (dict.New, buf.New): the allocation it stands for is named in the specifications
+		}
 		rs, ok := fn.Decl.Body.List[0].(*ast.ReturnStmt)
 		if !ok || len(rs.Results) != 1 {
 			continue
